@@ -433,6 +433,9 @@ pub fn run_raw(cfg: Cfg, ops: &[RawOp]) -> (u64, u64) {
                 let _ = gr.debug();
                 let _ = gr.keys();
                 let _ = gr.len();
+                let _ = gr.is_empty();
+                let _ = gr.display();
+                let _ = gr.debug_alt();
             }
             _ => {
                 let _ = gr.deploy(&format!("ADD({x}); BIND({x}, {y}, foo); PUT({y}, {:02X}-01);", c & 0xff));
